@@ -190,7 +190,7 @@ fn observer(kind: ObsKind, addr: usize, size: usize, align: usize) {
                 if wh.0 > 0 {
                     wd.err("C09", "side_record_freed_with_weaks", "side_freed_while_weak_exists".into(), format!("the side record of #{} was released while {} Weak pointers to it exist (stack {})", id, wh.0, wd.stack_sig()));
                 }
-                if matches!(val, Some(Val::Alive)) && !wd.degraded.get() && wd.unwrapping.get() != Some(id) {
+                if matches!(val, Some(Val::Alive)) && !wd.is_degraded() && wd.unwrapping.get() != Some(id) {
                     wd.err("C09", "side_record_freed_value_alive", "side_freed_while_value_alive".into(), format!("the side record of #{} was released while its value is alive (stack {})", id, wd.stack_sig()));
                 }
                 if let Some(o) = m.obj_mut(id) {
@@ -476,7 +476,7 @@ pub fn on_drop(wd: &World, n: &Node) {
                     wd.err("C04", "rc_drop_with_handles", "rc_drop_while_handles_exist".into(), format!("#{} was dropped by reference counting although {} Cc pointers to it still exist (count too low)", id, hmin));
                 }
                 #[cfg(feature = "finalization")]
-                if o.armed && !wd.degraded.get() {
+                if o.armed && !wd.is_degraded() {
                     wd.err("C05", "drop_without_finalize", format!("dropped_unfinalized:{}", if by_collector { "collector" } else { "rc" }), format!("#{} was dropped without having been finalized although finalization was due", id));
                 }
                 // only destructors the collector runs itself (members of its garbage list): no other callback frame
@@ -554,7 +554,7 @@ pub fn on_action(wd: &World, owner: u32, idx: usize) {
         a.runs += 1;
         if a.runs > 1 {
             wd.err("C10", "action_ran_twice", "action_ran_twice".into(), format!("cleaning action {} of #{} ran {} times", idx, owner, a.runs));
-        } else if !cleaning_this && !cleaner_dropping && !wd.degraded.get() && wd.fault_fired.get() == 0 {
+        } else if !cleaning_this && !cleaner_dropping && !wd.is_degraded() && wd.fault_fired.get() == 0 {
             // an action runs when its own clean() is called or when its Cleaner is dropped, and at no other time
             wd.err("C10", "action_ran_without_trigger", format!("action_ran_without_trigger:{}", wd.stack_sig()), format!("cleaning action {} of #{} ran although neither its clean() is being called nor its Cleaner is being dropped (stack {})", idx, owner, wd.stack_sig()));
         }
@@ -571,7 +571,7 @@ pub fn on_cleaner_marker(wd: &World, id: u32, exit: bool) {
     }
     o.cleaner_exit_seen = true;
     bump(&wd.stats.cleaner_drops);
-    if wd.degraded.get() || wd.fault_fired.get() > 0 {
+    if wd.is_degraded() || wd.fault_fired.get() > 0 {
         return;
     }
     let pending: Vec<usize> = o.actions.iter().enumerate().filter(|(_, a)| a.runs == 0).map(|(i, _)| i).collect();
@@ -930,7 +930,7 @@ pub fn upgrade_expectation(wd: &World, t: WT) -> Expect {
                     }
                     // after a caught panic the objects that existed then may have been leaked in any state (their
                     // Weaks may refuse for good); objects created afterwards are not involved and are judged fully
-                    if wd.degraded.get() && id < wd.fault_obj_mark.get() {
+                    if wd.is_degraded() && id < wd.fault_obj_mark.get() {
                         return Expect::Either("degraded");
                     }
                     if wd.in_collection.get() && wd.coll_drop_phase.get() && !m.reach().contains(&id) {
@@ -1206,7 +1206,7 @@ pub fn post_clean(wd: &World, oid: u32, idx: usize, pre: &PreClean) {
             o.map_buffered = if wd.in_collection.get() || wd.cb_total.get() != pre.cb_total { Tri::Unk } else { Tri::In };
         }
     }
-    if wd.fault_fired.get() > 0 || wd.degraded.get() {
+    if wd.fault_fired.get() > 0 || wd.is_degraded() {
         return;
     }
     let mut m = wd.m.borrow_mut();
@@ -1399,7 +1399,7 @@ impl<'a> Walk<'a> {
 pub fn walk_roots(wd: &World, at: &str) {
     bump(&wd.stats.qp_walks);
     let m = wd.m.borrow();
-    let mut wk = Walk { wd, m: &m, seen: HashSet::new(), degraded: wd.degraded.get() };
+    let mut wk = Walk { wd, m: &m, seen: HashSet::new(), degraded: wd.is_degraded() };
     for (i, c) in wd.r.iter().enumerate() {
         let b = c.borrow();
         match (b.as_ref(), m.r[i]) {
@@ -1480,7 +1480,7 @@ pub fn check_buffer(wd: &World, at: &str) {
     }
     // exact membership where the model is certain (statement's enter / leave rules); after a caught panic handles
     // may have leaked, so the model's holder counts (and with them the predictions) are no longer exact
-    if wd.degraded.get() {
+    if wd.is_degraded() {
         return;
     }
     for o in &m.objs {
@@ -1521,7 +1521,7 @@ pub fn check_qp(wd: &World, at: &str) {
         }
     }
     wd.releasing.borrow_mut().clear();
-    let degraded = wd.degraded.get();
+    let degraded = wd.is_degraded();
     // allocator ground truth
     if wd.mode.get().alloc_tracking && valloc::mode() != valloc::MODE_OFF {
         for e in valloc::take_errors() {
@@ -1748,7 +1748,7 @@ fn state_hash(wd: &World) {
 // C02 / C06 precision
 
 pub fn after_collect_quiet(wd: &World) {
-    if wd.degraded.get() || wd.fault_fired.get() > 0 {
+    if wd.is_degraded() || wd.fault_fired.get() > 0 {
         return;
     }
     bump(&wd.stats.c02_checks);
